@@ -86,7 +86,7 @@ PROPS["C11"] = {
 }
 
 PROPS["C05"] = {
-    "modules": ["SamlVerif.Props.C05", "SamlVerif.Props.TransIdP", "SamlVerif.Props.PureSaml"],
+    "modules": ["SamlVerif.Props.C05", "SamlVerif.Props.TransIdP", "SamlVerif.Props.TransIdpInit", "SamlVerif.Props.PureSaml"],
     "trusted_base": ["modelled, not verified: base64/inflate decoding and encoding/xml unmarshalling of the AuthnRequest (the model starts from the unmarshalled "
                      "fields; the harness sends real GET-deflate and POST encodings through NewIdpAuthnRequest + Validate)"],
     "assumptions": ["freshness is read one-sidedly (now <= IssueInstant + MaxIssueDelay), as the anchored code words it"],
@@ -267,7 +267,7 @@ TRANS_TB = ("the Go->Lean translator (extract/trans.go: go/ast + go/types over a
             "dereference = panic, receivers non-nil, time as integers, url.URL.String() opaque, untranslated callees as arbitrary functions in Env; arguments of fmt.Errorf are not evaluated)")
 for pid, fns in {"C01": "parseResponse / parseAssertion / parseEncryptedAssertion",
                  "C02": "validateAssertion / parseResponse", "C03": "validateAssertion / validateAudienceRestriction / parseResponse",
-                 "C04": "validateRequestID / validateAssertion / parseResponse", "C05": "IdpAuthnRequest.Validate (from the Destination check on) / getACSEndpoint",
+                 "C04": "validateRequestID / validateAssertion / parseResponse", "C05": "IdpAuthnRequest.Validate (from the Destination check on) / getACSEndpoint / the endpoint selection of ServeIDPInitiated",
                  "C18": "validateLogoutResponse",
                  "C08": "IdpAuthnRequest.getSPEncryptionCert (the selection of the certificate string, up to its decoding)"}.items():
     PROPS[pid]["technique"] = TRANS_TECH.format(fns=fns)
